@@ -22,6 +22,139 @@ import (
 
 func init() {
 	runByScenario["S6C"] = runS6C
+	runByScenario["S4R"] = runS4R
+}
+
+// Scenario S4R "reconnect to a server that remembers": the same stub server,
+// not corrupting anything, keeps a history of transaction ids. A reconnecting
+// client with monitor_cond_since monitors loses its connection at seeded points
+// while the contents keep changing; with a single monitor the client sends its
+// last transaction id and receives only the changes since (found=true, no
+// purge), with several it starts over. Either way its cache must converge to the
+// server's contents. This is the "last-transaction-id known" half of C16 and
+// the only uncorrupted update3 traffic.
+func runS4R(e *Env, cfg *RunCfg) {
+	r := simrt.NewRand(cfg.Seed ^ 0x4a)
+	s := &stubServer{e: e, r: r, state: DBState{}, sent: map[string]int{}, remember: true}
+	for _, tn := range e.Sch.TableNames {
+		s.state[tn] = TableData{}
+	}
+	for i := 0; i < 3; i++ {
+		s.mutateState()
+	}
+	e.Sim.Net.ListenRaw(epMain, func(rc *simrt.RawConn) func([]byte) {
+		c := &stubConn{rc: rc}
+		s.conns = append(s.conns, c)
+		return func(f []byte) { s.onFrame(c, f) }
+	})
+	timeout, backoff := ms(cfg.Knob("timeout_ms", 2000)), ms(cfg.Knob("backoff_ms", 100))
+	bound := 4*(timeout+backoff) + 5*time.Second
+	ci := e.NewClient("c0", []string{epMain}, ClientOpts{Reconnect: true, Timeout: timeout, BackoffStep: backoff})
+	if ci == nil {
+		return
+	}
+	if err := e.ConnectClient(ci, 5*time.Second); err != nil {
+		if !e.Stopped() {
+			e.Fatalf("connect to the stub server failed: %v", err)
+		}
+		return
+	}
+	h := &s3{e: e, cfg: cfg, db: e.Sch.Name}
+	mc := &mirrorClient{ci: ci, spec: ClientSpec{Name: "c0"}, tables: map[string][]string{}}
+	for _, m := range cfg.Monitors {
+		m.Method = "monitor_cond_since"
+		cm := h.startMonitor(mc, m)
+		if !e.WaitCall(cm.call) || cm.err != nil {
+			if !e.Stopped() {
+				e.Fatalf("monitor on the stub server failed: %v", cm.err)
+			}
+			return
+		}
+		for tn, mt := range m.Tables {
+			mc.tables[tn] = mt.Columns
+		}
+	}
+	lastFault := e.Now()
+	converge := func(when string) bool {
+		deadline := lastFault + bound
+		if e.Now()+bound > deadline {
+			deadline = e.Now() + bound
+		}
+		var diff string
+		connected := false
+		e.RunUntil(func() bool {
+			if e.Now() > deadline {
+				return true
+			}
+			if !e.Quiet() {
+				return false
+			}
+			connected = false
+			e.Sim.Try(func() { connected = ci.C.Connected() && ci.C.CurrentEndpoint() != "" })
+			if !connected {
+				return false
+			}
+			var got DBState
+			e.Sim.Try(func() { got, _ = h.cacheState(mc) })
+			if got == nil {
+				return false
+			}
+			diff = DiffStates(s.state, got, SortedKeys(mc.tables), mc.tables)
+			return diff == ""
+		})
+		if e.Stopped() {
+			return false
+		}
+		if connected && diff == "" {
+			e.Probes["converged"]++
+			if s.state.Rows() > 0 {
+				e.Probes["checked_nonempty"]++
+			}
+			return true
+		}
+		if connected {
+			e.ViolateK("C16.mirror", fmt.Sprintf("since-reconnect:monitors=%d:found_true=%v", len(cfg.Monitors), s.sent["found_true"] > 0), "%s: connected to a server that remembers transaction ids, but %v after the last cut the cache differs from the server's contents (server vs cache):\n%s\nfound=true replies so far: %d\nclient log: %v", when, e.Now()-lastFault, diff, s.sent["found_true"], tail(ci.Log.lines, 8))
+		} else {
+			e.ViolateK("C16.liveness", "stub", "%s: the client is not connected and consistent within %v of the last cut\nblocked: %v\nclient log: %v", when, bound, e.Sim.Blocked(), tail(ci.Log.lines, 8))
+		}
+		return false
+	}
+	if !converge("after set-up") {
+		return
+	}
+	n := 8 + r.Intn(10)
+	for i := 0; i < n; i++ {
+		s.mutateState()
+		if r.Intn(3) == 0 {
+			// lose the connection here (possibly with the notification still in flight),
+			// and keep changing the contents while the client is away
+			for _, l := range e.Sim.Net.Links() {
+				if !l.IsCut() && r.Intn(2) == 0 {
+					e.Settle()
+				}
+				if !l.IsCut() {
+					l.Cut()
+					e.Faults["cut"]++
+					lastFault = e.Now()
+				}
+			}
+			for k := 0; k < r.Intn(3); k++ {
+				s.mutateState()
+			}
+			if !converge(fmt.Sprintf("after cut %d", i)) {
+				return
+			}
+		} else if r.Intn(2) == 0 {
+			if !e.Settle() && e.Stopped() {
+				return
+			}
+		}
+	}
+	converge("at the end of the run")
+	for k, v := range s.sent {
+		e.Probes["stub_"+k] += v
+	}
+	e.ShapeAdd(fmt.Sprintf("S4R %d %d", len(cfg.Monitors), s.sent["found_true"]))
 }
 
 type stubConn struct {
@@ -43,6 +176,9 @@ type stubServer struct {
 	conns  []*stubConn
 	txn    int
 	notifN int
+	// history[k] is the state after k changes; ids[k] its transaction id (a server that remembers)
+	history []DBState
+	remember bool
 	// corruption budget: probability (permil) of corrupting each kind of frame
 	pSchema, pReply, pNotif int
 	sent                    map[string]int
@@ -143,6 +279,17 @@ func (s *stubServer) onFrame(c *stubConn, f []byte) {
 		var res any = tu
 		if msg.Method == "monitor_cond_since" {
 			res = []any{false, zeroUUID, tu}
+			var last string
+			if s.remember && len(msg.Params) >= 4 && json.Unmarshal(msg.Params[3], &last) == nil {
+				for k := range s.history {
+					if s.txnID(k+1) == last {
+						// the id is known: answer with the changes since, and nothing else
+						res = []any{true, s.txnID(len(s.history)), s.delta(m, s.history[k], s.state)}
+						s.sent["found_true"]++
+						s.e.Probes["stub_found_true"]++
+					}
+				}
+			}
 		}
 		reply(s.maybeCorrupt(res, s.pReply, "monitor_reply"))
 	case "transact":
@@ -165,6 +312,7 @@ func (s *stubServer) mutateState() {
 	}
 	before := s.state
 	s.state = out.After
+	s.history = append(s.history, s.state)
 	for _, c := range s.conns {
 		if c.closed {
 			continue
@@ -213,11 +361,42 @@ func (s *stubServer) mutateState() {
 			case "monitor_cond":
 				s.send(c, map[string]any{"method": "update2", "params": []any{cookie, body}, "id": nil})
 			default:
-				s.send(c, map[string]any{"method": "update3", "params": []any{cookie, fmt.Sprintf("00000000-0000-4000-8000-%012d", s.notifN), body}, "id": nil})
+				s.send(c, map[string]any{"method": "update3", "params": []any{cookie, s.txnID(len(s.history)), body}, "id": nil})
 			}
 			s.sent["notifications"]++
 		}
 	}
+}
+
+func (s *stubServer) txnID(k int) string { return fmt.Sprintf("00000000-0000-4000-8000-%012d", k) }
+
+// delta renders the changes from one state to another in update2 form for one monitor.
+func (s *stubServer) delta(m stubMon, from, to DBState) map[string]map[string]any {
+	e := s.e
+	req := &MonReq{Method: m.method, Tables: map[string]*MonTable{}}
+	for t, cols := range m.tables {
+		req.Tables[t] = &MonTable{Columns: cols, Insert: true, Delete: true, Modify: true}
+	}
+	tu := map[string]map[string]any{}
+	for _, ch := range req.Expected(from, to) {
+		if tu[ch.Table] == nil {
+			tu[ch.Table] = map[string]any{}
+		}
+		t := e.Sch.Tables[ch.Table]
+		switch ch.Kind {
+		case "insert":
+			tu[ch.Table][ch.UUID] = map[string]any{"insert": RowToWire(ch.New)}
+		case "delete":
+			tu[ch.Table][ch.UUID] = map[string]any{"delete": nil}
+		default:
+			diff := Row{}
+			for _, cn := range ch.Changed {
+				diff[cn] = computeDiff(&t.Columns[cn].Type, ch.Old[cn], ch.New[cn])
+			}
+			tu[ch.Table][ch.UUID] = map[string]any{"modify": RowToWire(diff)}
+		}
+	}
+	return tu
 }
 
 // computeDiff is the update2 difference of one column (inverse of ApplyDiff).
